@@ -46,6 +46,10 @@ ASSUMPTIONS = [
     "(well-typedness and round trips only)",
     "a change of export_json that keeps the text re-parsable to an equal item (e.g. ASCII instead of unicode "
     "operators) is not a violation of the statement and is not flagged",
+    "round trips are asserted only for items whose terms survive syntax.printer -> syntax.parser with all variables "
+    "declared (term-level printing is the subject of C07); other accepted items are counted inconclusive",
+    "statements of thm / thm.ax items contain no schematic variables; def.ind / def.pred items have >= 1 rule and "
+    "type.ind items >= 1 constructor (the edit form cannot express the empty list)",
 ]
 SHRINK_BUDGET = 60
 SHRINK_SECONDS = 20
@@ -273,6 +277,10 @@ def check_item(case, pre_thy, pre_sig, H):
                 for cond, detail in verdict:
                     H.violation('def:accepted-non-conservative:' + cond, case,
                                 'accepted: %s :: %s with %s; %s' % (cs[0].name, ref.show_type(declT), ref.show(prop)[:400], detail))
+                if verdict:
+                    # the item should not have been accepted at all: what its extension and its printed forms look
+                    # like are consequences of the same missing side condition, not further defects
+                    return done('accepted-not-definitional', True)
 
     # ---- (b) well-typedness of the extension over the extended signature --------------------------------
     try:
@@ -289,6 +297,14 @@ def check_item(case, pre_thy, pre_sig, H):
     # ---- (c) round trips ------------------------------------------------------------------------------------
     def fresh_pre():
         return copy.copy(pre_thy)
+
+    why = term_level_failure(item, pre_thy, post)
+    if why:
+        # printing a term and parsing it back with every variable declared already fails: that is the subject of
+        # C07 (syntax.printer / syntax.parser), not of the item layer
+        H.inconc('term-level print/parse does not round-trip (C07 domain): ' + why)
+        check_eq_fields(item, ty, case, H)
+        return done('accepted', n_thm >= 1)
 
     def compare(form, item2, how):
         if item2.error is not None:
@@ -378,7 +394,12 @@ def check_item(case, pre_thy, pre_sig, H):
             H.violation('reparse-ascii:%s:%s' % (ty, _errname(item2.error)), case,
                         'ASCII edit form does not re-parse: %s on %r' % (str(item2.error)[:300], disp))
 
-    # item equality must see every field
+    check_eq_fields(item, ty, case, H)
+    done('accepted', n_thm >= 1)
+
+
+def check_eq_fields(item, ty, case, H):
+    """Item equality must see every field."""
     for field in L.item_fields(item):
         try:
             other = L.perturb_field(item, field)
@@ -390,7 +411,47 @@ def check_item(case, pre_thy, pre_sig, H):
                                 field, _show(getattr(item, field)), _show(getattr(other, field))))
         except Exception as e:
             H.violation('eq:raises:%s:%s' % (ty, _errname(e)), case, 'field %s: %r' % (field, e))
-    done('accepted', n_thm >= 1)
+
+
+def item_terms(item):
+    from kernel.term import Term
+    out = []
+    prop = getattr(item, 'prop', None)
+    if isinstance(prop, Term):
+        out.append(prop)
+    for r in getattr(item, 'rules', None) or []:
+        if isinstance(r, dict) and isinstance(r.get('prop'), Term):
+            out.append(r['prop'])
+    return out
+
+
+def term_level_failure(item, pre_thy, post):
+    """Domain filter (not an oracle): every term of the item must survive print -> parse when all its variables
+    are declared in the context and the defined constant is known.  Returns a short reason or None."""
+    from logic import context
+    from syntax import parser, printer
+    global_setting = _S['global_setting']
+    defs = None
+    if item.ty in ('def', 'def.ind', 'def.pred'):
+        defs = {item.name: item.type}
+    for t in item_terms(item):
+        want = ref.canon(ref.from_term(t))
+        vs = {v.name: v.T for v in t.get_vars()}
+        svs = {v.name: v.T for v in t.get_svars()}
+        for ll in (None, 80):
+            def go():
+                _S['theory'].thy = post
+                with global_setting(unicode=True, highlight=False, line_length=ll):
+                    text = printer.print_term(t)
+                _S['theory'].thy = copy.copy(pre_thy)
+                with context.fresh_context(vars=vs, svars=svs, defs=defs):
+                    return parser.parse_term(text)
+            st, t2 = _run(post, go)
+            if st != 'ok':
+                return 'raises' if st == 'raised' else 'timeout'
+            if ref.canon(ref.from_term(t2)) != want:
+                return 'differs'
+    return None
 
 
 def _show(x):
@@ -417,7 +478,7 @@ KEEP = {
     'list': {'true', 'false', 'neg', 'conj', 'implies', 'equals', 'all', 'exists', 'IF',
              'zero', 'Suc', 'plus', 'nil', 'cons', 'append', 'length', 'rev', 'member', 'empty_set'},
     'real': {'true', 'false', 'neg', 'conj', 'implies', 'equals', 'all', 'IF',
-             'zero', 'one', 'plus', 'times', 'less_eq', 'less', 'of_nat', 'uminus', 'Suc'},
+             'zero', 'one', 'plus', 'times', 'less_eq', 'less', 'of_nat', 'Suc'},
 }
 ATOMS = {
     'logic_base': [BOOL, A, B],
@@ -710,7 +771,7 @@ def thm_strategy(env):
 
     @st.composite
     def cases(draw):
-        family = draw(st.sampled_from(['valid', 'valid', 'valid', 'valid', 'adv:undeclared-var', 'adv:name-exists', 'svar']))
+        family = draw(st.sampled_from(['valid', 'valid', 'valid', 'valid', 'adv:undeclared-var', 'adv:name-exists']))
         ty = draw(st.sampled_from(['thm', 'thm.ax']))
         uni = draw(st.booleans())
         opts = gen.Opts(sig=env.consts, redex=draw(st.booleans()), atom_types=env.atoms, names=['x', 'y', 'z', 'f'],
@@ -804,7 +865,7 @@ def pred_strategy(env):
 
     @st.composite
     def cases(draw):
-        family = draw(st.sampled_from(['valid', 'valid', 'valid', 'recursive', 'recursive', 'adv:wrong-head', 'no-rules']))
+        family = draw(st.sampled_from(['valid', 'valid', 'valid', 'recursive', 'recursive', 'adv:wrong-head']))
         uni = draw(st.booleans())
         name = draw(st.sampled_from(env.fresh_consts))
         Ts = draw(st.lists(st.sampled_from(env.atoms), min_size=1, max_size=2))
